@@ -27,10 +27,14 @@ def describe(o):
     return o.what
 
 
-def run_scope(ck, roots, rule, label, floor):
+def run_scope(ck, roots, rule, label, floor, ignore_print=False):
     prog, cg = ck.prog, ck.cg
     scope = cg.closure(roots)
-    obl, an = panics.analyse_scope(prog, cg, scope)
+    obl, an = panics.analyse_scope(prog, cg, scope, libcalls=True)
+    if ignore_print:
+        obl = [o for o in obl if getattr(o, "libclass", None) != "print"]
+    for cls, k in sorted(getattr(an, "lib_counts", {}).items()):
+        ck.count("library calls in the %s closure classified %s" % (label, cls), k)
     ck.count("functions in the %s closure" % label, len(scope))
     n = 0
     by_ax = {}
